@@ -29,8 +29,12 @@ def crc24(data):
     return rem
 
 
-def build_frame(df, addr, rng):
-    """DF(5) | random payload | last 24 bits: AP = parity xor address, or PI = parity (AA in bits 9-32)."""
+IC_CODES = (0, 0, 1, 15, 16, 0x3F, 0x4F, 0x2A)     # DF11 PI = parity xor (CL, IC): II codes 0-15, SI codes 16-79
+
+
+def build_frame(df, addr, rng, ic=0):
+    """DF(5) | random payload | last 24 bits: AP = parity xor address, or PI = parity (AA in bits 9-32);
+    a DF11 reply to an interrogator with code ic carries PI = parity xor ic."""
     nbits = 112 if df & 0x10 else 56
     free = nbits - 24 - 5
     body = (df << free) | rng.getrandbits(free)
@@ -39,7 +43,7 @@ def build_frame(df, addr, rng):
         body = (body & ~(0xFFFFFF << sh)) | (addr << sh)
     data = body.to_bytes((nbits - 24) // 8, "big")
     par = crc24(data)
-    last = par if df in AA_DFS else par ^ addr
+    last = (par ^ ic if df == 11 else par) if df in AA_DFS else par ^ addr
     return data + last.to_bytes(3, "big"), par, last
 
 
@@ -90,7 +94,7 @@ def instantiate(rows, k, rng):
         for ci in pending:
             c = cases[ci]
             kind, d = c["row"]["kind"], c["row"]["d"]
-            frame, par, last = build_frame(d, c["addr"], rng)
+            frame, par, last = build_frame(d, c["addr"], rng, IC_CODES[c["i"] % len(IC_CODES)])
             if kind == "badcrc17":
                 frame = frame[:-1] + bytes([frame[-1] ^ (1 << rng.randrange(8))])
             elif kind == "short":
